@@ -142,7 +142,9 @@ class G:
         if c < 0.78:
             s, qs = self.sexp(d + 1, allow_lit=False)
             opts = r.sample(WORDS, r.choice([1, 2, 3]))
-            return (f'in({s}, "{"|".join(opts)}")', f"(BIn {qs} {listlit(opts, ulit)})")
+            sep = r.choice(["|", "|", " | ", "| ", " |"])      # blanks around the pipes: each option is trimmed
+            text = sep.join(opts)
+            return (f'in({s}, "{text}")', f"(BIn {qs} {listlit(text.split('|'), ulit)})")
         if c < 0.83:
             s, qs = self.sexp(d + 1, allow_lit=False)
             p = r.choice(["a", "A", "x", "z", "ab", "Q"])
@@ -220,9 +222,12 @@ class G:
             n = r.choice([2, 3])
             return (f"every.d{v}(#{HDR[h]}, {n})", f"(Every {v} {h}%nat {n})")
         if k < 0.64:
-            n = r.choice([1, 2, 5])
             if not conditional:
                 self.pending = ("n", v, "int")
+            if r.random() < 0.4:      # the increment is an expression evaluated on every line
+                e, qe, _ = self.nexp(1, allow_lit=False)
+                return (f"counter.v{v}({e})", f"(CounterE {v} {qe})")
+            n = r.choice([1, 2, 5])
             return (f"counter.v{v}({n})", f"(Counter {v} {n})")
         if k < 0.76:
             e, qe, _ = self.nexp(1, allow_lit=False)
